@@ -10,8 +10,8 @@ the object readable after.
 import itertools
 
 from traits.api import (AdaptsTo, Any, ComparisonMode, Event, Expression,
-                        Float, HasTraits, Instance, Int, List, Str, Supports,
-                        TraitError, Undefined)
+                        Float, HasTraits, Instance, Int, List,
+                        PrototypedFrom, Str, Supports, TraitError, Undefined)
 
 from props.lattice import C0, FOO0, IFoo
 
@@ -51,6 +51,27 @@ class BadEq:
     __hash__ = object.__hash__
 
 
+class BadRepr:
+    """its own repr/str raise (values are formatted when a failing handler
+    is logged)"""
+
+    def __repr__(self):
+        raise RuntimeError("repr raises")
+
+    __str__ = __repr__
+
+
+def safe_repr(x):
+    try:
+        return repr(x)
+    except Exception:
+        return "<%s with failing repr>" % type(x).__name__
+
+
+class Proto(HasTraits):
+    x = Event
+
+
 NAN1, NAN2 = float("nan"), float("nan")
 L1, L2 = [1], [1]
 A1, A2 = A(), A()
@@ -61,6 +82,7 @@ POOL = {
     "nan1": NAN1, "nan2": NAN2, "badeq": BAD, "None": None, "a": "a",
     "b": "b", "A1": A1, "A2": A2, "2.0": 2.0, "big": 10 ** 20,
     "big2": 10 ** 20 + 0, "sa2": "".join(["a"]),
+    "badrepr": BadRepr(), "badrepr2": BadRepr(),
     "C0": C0, "FOO0": FOO0, "e1": "1+1", "e1b": "".join(["1+", "1"]),
     "e2": "2", "ebad": "1+",
 }
@@ -72,7 +94,7 @@ MODES = {"none": ComparisonMode.none, "identity": ComparisonMode.identity,
 KINDS = {
     "Any": (lambda m: Any(comparison_mode=MODES[m]),
             ["1", "2", "1.0", "True", "L1", "L2", "nan1", "nan2", "badeq",
-             "None"]),
+             "None", "badrepr", "badrepr2"]),
     "Int": (lambda m: Int(comparison_mode=MODES[m]),
             ["1", "2", "True", "big", "big2", "a"]),
     "Str": (lambda m: Str(comparison_mode=MODES[m]), ["a", "sa2", "b", "1"]),
@@ -90,8 +112,12 @@ KINDS = {
                    ["e1", "e1b", "e2", "ebad"]),
     "Event": (lambda m: Event(), ["1", "1.0", "L1", "None"]),
     "EventInt": (lambda m: Event(Int), ["1", "True", "a"]),
+    # an Event reached through a PrototypedFrom trait, fired on the
+    # deferring object
+    "EventProto": (lambda m: PrototypedFrom("proto"), ["1", "L1", "None"]),
 }
-HANDLERS = ["static", "anytrait", "otc_fn", "otc_method", "obs1", "obs2"]
+HANDLERS = ["static", "static_base", "anytrait", "otc_fn", "otc_method",
+            "obs1", "obs2"]
 
 
 def configs():
@@ -116,10 +142,17 @@ class Rig:
             if rig.raiser == h:
                 raise RuntimeError("handler %s fails" % h)
 
-        class Owner(HasTraits):
+        class BaseOwner(HasTraits):
             x = factory(mode)
             y = Int(5)
+            proto = Instance(Proto, ())
 
+            # a static hook defined in the base class ...
+            def _x_fired(self, old, new):
+                rec("static_base", "x", old, new)
+
+        class Owner(BaseOwner):
+            # ... and further static hooks for the same trait in a subclass
             def _x_changed(self, old, new):
                 rec("static", "x", old, new)
 
@@ -184,7 +217,8 @@ def step(ctx, rig, ev, hist):
         ctx.violation("C02:%s:%s:%s:raiser=%s" % (k, kind, mode, rig.raiser),
                       msg, kind=kind, mode=mode, raiser=rig.raiser,
                       history=hist, event=ev,
-                      calls={h: [(n, repr(a), repr(b)) for n, a, b in l]
+                      calls={h: [(n, safe_repr(a), safe_repr(b))
+                                 for n, a, b in l]
                              for h, l in rig.log.items()})
 
     if ev[0] == "read":
@@ -218,7 +252,7 @@ def step(ctx, rig, ev, hist):
     except TraitError as e:
         exc = e
     except Exception as e:
-        bad("assign-raises", "assignment raised %r" % (e,))
+        bad("assign-raises", "assignment raised %s" % safe_repr(e))
         return good
     after = o.__dict__.get("x", MISSING)
     if exc is not None:
@@ -273,24 +307,26 @@ def step(ctx, rig, ev, hist):
         want = 1 if verdict else 0
     if want:
         ctx.outcome("notified")
-        ctx.nontriv((kind, mode, "notified", repr(before)[:20], ev[1]))
+        ctx.nontriv((kind, mode, "notified", safe_repr(before)[:20], ev[1]))
     else:
         ctx.outcome("suppressed-identical" if (before is after)
                     else "suppressed-equal")
-        ctx.nontriv((kind, mode, "suppressed", repr(before)[:20], ev[1]))
+        ctx.nontriv((kind, mode, "suppressed", safe_repr(before)[:20],
+                     ev[1]))
     for h in HANDLERS:
         calls = rig.log[h]
         if len(calls) != want:
-            bad("count", "%s called %d time(s), expected %d (old=%r new=%r)"
+            bad("count", "%s called %d time(s), expected %d (old=%s new=%s)"
                 % (h, len(calls), want,
-                   "default" if old_is_default else before, after))
+                   "default" if old_is_default else safe_repr(before),
+                   safe_repr(after)))
             continue
         for name, old, new in calls:
             if name != "x":
                 bad("name", "%s got name %r" % (h, name))
             if new is not after:
-                bad("new", "%s got new=%r but %r is readable after"
-                    % (h, new, after))
+                bad("new", "%s got new=%s but %s is readable after"
+                    % (h, safe_repr(new), safe_repr(after)))
             if old_is_default:
                 try:
                     ok = (old == declared_default(kind)) or \
@@ -301,8 +337,8 @@ def step(ctx, rig, ev, hist):
                     bad("old", "%s got old=%r, the default is %r"
                         % (h, old, declared_default(kind)))
             elif old is not before:
-                bad("old", "%s got old=%r but %r was readable before"
-                    % (h, old, before))
+                bad("old", "%s got old=%s but %s was readable before"
+                    % (h, safe_repr(old), safe_repr(before)))
     if rig.raiser is not None and want and rig.log[rig.raiser]:
         ctx.outcome("raising-handler-contained")
     return good
@@ -330,7 +366,7 @@ def canon(rig):
     for tok, val in POOL.items():
         if x is val:
             return tok
-    return "conv:" + type(x).__name__ + ":" + repr(x)
+    return "conv:" + type(x).__name__ + ":" + safe_repr(x)
 
 
 def run_shard(ctx, shard, tier):
